@@ -65,7 +65,14 @@ def Items.events : Items → List Ev
   | .other r => .ignored :: r.events
 end
 
-/-- a document: misc, root element, misc, end of input -/
+/-- a document: misc (white space, comments, PIs, declaration, DOCTYPE), root element, misc, end of input -/
+structure Doc where
+  pre : Items
+  root : Node
+  post : Items
+
+def Doc.events (d : Doc) : List Ev := d.pre.events ++ d.root.events ++ d.post.events ++ [.eof]
+
 def docEvents (root : Node) : List Ev := root.events ++ [.eof]
 
 /-- the schema of one position: text flag, attributes, child kinds (ordered lists) -/
